@@ -106,3 +106,12 @@ def c13_bypass_partial_word_flush(v, case):
     if not (v.get("bypass") and (v.get("ratio") or 1) > 1 and v.get("visited_pump_or_drain_state")):
         return False
     return v.get("kind") in ("output-stream-differs", "more-words-out-than-in", "no-progress")
+
+
+def c13_bypass_early_return_reorders(v, case):
+    """LiteDRAMFIFO(with_bypass=True), DRAM word ratio > 1: the mode FSM returns to BYPASS as soon as its DRAM word counter
+    is zero, although a complete DRAM word can still be waiting at the pre-converter's output (it is only counted when the
+    DRAM FIFO accepts it): the following stream words take the bypass and overtake it.  Nothing is lost: accepts only
+    witnesses where the output is a permutation of the input, in runs that never used the pump/drain states."""
+    return bool(v.get("bypass") and (v.get("ratio") or 1) > 1 and v.get("kind") == "output-stream-differs"
+                and v.get("output_is_permutation_of_input") and not v.get("visited_pump_or_drain_state"))
